@@ -234,7 +234,7 @@ def rand_flat(rng, kind):
     if kind == "L":
         return ("L", rpt(rng), rdir(rng))
     if kind == "H":
-        return ("H", rpt(rng), rdir(rng))
+        return ("H", rpt(rng), mul(rdir(rng), rng.choice((F(1, 8), F(1, 4), F(1, 2), 1, 1, 1, 2))))
     if kind == "S":
         p = rpt(rng)
         return ("S", p, add(p, mul(rdir(rng), rng.choice((F(1, 2), F(1), F(1), F(2))))))
@@ -471,6 +471,20 @@ def crossing_pair(rng, ka, kb):
     while True:
         x = rpt(rng, 3, (1, 2))
         d1, d2 = rdir(rng, 2), rdir(rng, 2)
+        if rng.random() < 0.25:
+            # carriers in a common plane parallel to a coordinate axis: their projections onto one coordinate
+            # plane are parallel, with a component ratio that is not a dyadic number (11:15, 13:7, ...)
+            ax = rng.randrange(3)
+            o1, o2 = [a for a in range(3) if a != ax]
+            u, v = rng.choice(((F(11, 4), F(15, 4)), (F(13, 4), F(7, 4)), (F(5, 4), F(3, 4)), (F(3), F(7)), (F(9, 4), F(5, 2)), (F(7, 4), F(3, 2))))
+            if rng.random() < 0.5:
+                u, v = v, u
+            d1 = [F(0)] * 3
+            d2 = [F(0)] * 3
+            k2 = rng.choice((F(1), F(-1), F(1, 2), F(2)))
+            d1[o1], d1[o2], d1[ax] = u * rng.choice((1, -1)), v, F(rng.randint(-6, 6), 4)
+            d2[o1], d2[o2], d2[ax] = d1[o1] * k2, d1[o2] * k2, F(rng.randint(-6, 6), 4)
+            d1, d2 = tuple(d1), tuple(d2)
         if not nz(cross(d1, d2)):
             continue
 
@@ -537,6 +551,41 @@ def flat_vs_body(rng, kf, kb, small=False):
     return (rand_flat(rng, kf), body), "random"
 
 
+def edge_cross_contact(rng, a):
+    """a tetrahedron that touches the polyhedron a in exactly one point which is a vertex of neither body:
+    one of its edges crosses an edge of a in the interior of both, the rest lies beyond a supporting plane"""
+    edges = {}
+    c = K.centroid(a[1])
+    for f in a[2]:
+        n = _reduce(K.polygon_normal(f))
+        if dot(n, sub(c, f[0])) > 0:
+            n = mul(n, -1)
+        m = len(f)
+        for i in range(m):
+            edges.setdefault(frozenset((f[i], f[(i + 1) % m])), []).append(n)
+    for _ in range(20):
+        e, ns = rng.choice(list(edges.items()))
+        if len(ns) != 2:
+            continue
+        p, q = tuple(e)
+        ed = sub(q, p)
+        w = add(mul(ns[0], rng.randint(1, 2)), mul(ns[1], rng.randint(1, 2)))        # strictly inside the normal cone of the edge
+        d2 = cross(ed, w)
+        if not nz(d2):
+            continue
+        d2 = _reduce(d2)
+        w = _reduce(w)
+        mid = add(p, mul(ed, rng.choice((F(1, 2), F(1, 4), F(3, 4)))))
+        s1, s2 = rng.choice((F(1, 2), F(1, 4), F(1))), rng.choice((F(1, 2), F(1, 4), F(1)))
+        top = add(mid, mul(w, s1))
+        er = _reduce(ed)
+        pts = [sub(mid, mul(d2, s2)), add(mid, mul(d2, s2)), add(top, mul(er, s2)), sub(top, mul(er, s2))]
+        b = K.hull3d(pts)
+        if b is not None and ok_coords(b, 64, 40):
+            return b
+    return None
+
+
 def int_box(rng, lo=-3, hi=2):
     """axis-aligned box with small integer corners (coordinates -1 / -2 included on purpose:
     CPython hashes -1.0 and -2.0 alike, the one small-number hash collision there is)"""
@@ -576,6 +625,10 @@ def body_pair(rng, ka, kb, small=True):
         mk = lambda k: int_box(rng) if k == "PH" else int_rect(rng)
         return (mk(ka), mk(kb)), "small-integer-boxes"
     a = rand_obj(rng, ka, small)
+    if ka == "PH" and kb == "PH" and rng.random() < 0.08:
+        b = edge_cross_contact(rng, a)
+        if b is not None:
+            return ((a, b) if rng.random() < 0.5 else (b, a)), "edge-crossing-point-contact"
     if r < 0.1 and ka == "PH" and kb == "PH":
         # strictly nested, off-centre: a shrunken copy about an interior point (no surface contact)
         inner = [q for q in feature_points(a).get("interior", [])]
@@ -658,8 +711,53 @@ def _scale_about(d, c, s):
     return ("PH", tuple(pt(v) for v in d[1]), tuple(tuple(pt(v) for v in f) for f in d[2]))
 
 
+def origin_mirror(d):
+    """point reflection x -> -x of a descriptor (parallel carrier / plane on the other side of the origin)"""
+    from .desc import xform
+    return xform(d, ((0, -1), (1, -1), (2, -1)), (F(0), F(0), F(0)), F(1))
+
+
+def carrier_of(d, kind):
+    """a Line / Plane through (or containing) the object d, as a descriptor of `kind`, or None"""
+    k = d[0]
+    if kind == "L":
+        if k in ("L", "H"):
+            return ("L", d[1], d[2])
+        if k == "S":
+            return ("L", d[1], sub(d[2], d[1]))
+        if k == "PG":
+            return ("L", d[1][0], sub(d[1][1], d[1][0]))
+        if k == "PH":
+            return ("L", d[2][0][0], sub(d[2][0][1], d[2][0][0]))
+    if kind == "PL":
+        if k == "PL":
+            return d
+        if k == "PG":
+            return ("PL", d[1][0], _reduce(K.polygon_normal(d[1])))
+        if k == "PH":
+            return ("PL", d[2][0][0], _reduce(K.polygon_normal(d[2][0])))
+    return None
+
+
 def gen_pair(rng, ka, kb, small=True):
     """any ordered kind pair -> ((a, b), scenario label)"""
+    if rng.random() < 0.04 and (ka in ("L", "PL") or kb in ("L", "PL")):
+        # a Line / Plane that is the point reflection through the origin of the partner's carrier:
+        # parallel to it, at the mirrored offset (equal |offset|, equal moment up to sign)
+        if kb in ("L", "PL"):
+            a = rand_obj(rng, ka, small)
+            c = carrier_of(a, kb)
+            if c is not None:
+                b = origin_mirror(c)
+                if ok_coords(b):
+                    return (a, b), "origin-mirrored-carrier"
+        else:
+            b = rand_obj(rng, kb, small)
+            c = carrier_of(b, ka)
+            if c is not None:
+                a = origin_mirror(c)
+                if ok_coords(a):
+                    return (a, b), "origin-mirrored-carrier"
     if ka in FLAT and kb in FLAT:
         return flat_pair(rng, ka, kb)
     if ka in FLAT:
